@@ -4,6 +4,7 @@ package main
 
 import (
 	"fmt"
+	"os"
 	"go/types"
 	"sort"
 	"strings"
@@ -233,13 +234,20 @@ func implIfaceType(ct *Contract, P *Program) types.Type {
 func verifyConformance(P *Program, S *Specs, ct *Contract, prop string) []*FuncResult {
 	var out []*FuncResult
 	it := implIfaceType(ct, P)
+	if os.Getenv("GOVC_DEBUG_CONF") != "" {
+		fmt.Fprintf(os.Stderr, "conformance %s: iface type %v\n", ct.Key, it)
+	}
 	if it == nil {
 		return nil
 	}
 	k := strings.TrimPrefix(ct.Key, "iface ")
 	mname := k[strings.LastIndex(k, ".")+1:]
 	tmp := newVC(P, S)
-	for _, T := range tmp.implementors(it) {
+	impls := tmp.implementors(it)
+	if ct.ConformsRepo {
+		impls = tmp.repoImplementors(it)
+	}
+	for _, T := range impls {
 		m := P.SSA.LookupMethod(T, it.(*types.Named).Obj().Pkg(), mname)
 		if m == nil {
 			continue
